@@ -12,6 +12,7 @@ CONSTANTS
   CondVals = {"absent", "str", "intlist"}
   CondTypes = {"absent", "string", "int", "float", "bool"}
   RuleKinds = {"list"}
+  CondScopes = {"trace"}
   Faithful = TRUE
 INVARIANTS TypeOK OnlyListed
 ACTION_CONSTRAINT Dump
